@@ -45,3 +45,90 @@ def register(M):
       "        c = 0\n        ellipses_inds = []",
       "        c = 7\n        ellipses_inds = []",
       "harmless: the ellipsis expansion starts looking for free symbols at 'h' instead of 'a'", T, harmless=True)
+
+    # ---- front-end routes (expressions with constants, trees, optimize dispatch, options) ----
+    M("M_C12_x1", ["C12"], "cotengra/interface.py",
+      "            lazy_variables_and_constants.append(constant)\n",
+      "            lazy_variables_and_constants.insert(0, constant)\n",
+      "expressions with constants: the constants are gathered in front of the variables instead of staying in their positions", T)
+    M("M_C12_x2", ["C12"], "cotengra/interface.py",
+      "            if via is not None:\n                constant = via[0](constant)\n",
+      "",
+      "expressions with constants: the constant arrays are not passed through the via input conversion", T)
+    M("M_C12_x2b", ["C12"], "cotengra/interface.py",
+      "        return self.convert_out(out)\n",
+      "        return out\n",
+      "Via forgets the output conversion", T)
+    M("M_C12_x3", ["C12"], "cotengra/interface.py",
+      "        arrays = map(self.convert_in, arrays)\n",
+      "        memo = globals().setdefault(\"_VIA_CONVERTED\", {})\n"
+      "        arrays = [memo.setdefault((id(self), i, ar.shape(x)), self.convert_in(x)) for i, x in enumerate(arrays)]\n",
+      "Via memoises the converted operands per wrapper and position keyed on the SHAPE: the next call of the same expression reuses the previous call's arrays (stale cache)", T)
+    M("M_C12_x4", ["C12"], "cotengra/interface.py",
+      "    return array_contract_tree(\n        inputs,\n        output,\n        shapes=shapes,",
+      "    return array_contract_tree(\n        inputs,\n        None,\n        shapes=shapes,",
+      "einsum_tree drops the parsed output: the tree gets the implicit first-appearance output", T)
+    M("M_C12_x5", ["C12"], "cotengra/interface.py",
+      "        output = find_output_from_inputs(inputs)\n\n    if size_dict is None:",
+      "        output = tuple(sorted(find_output_from_inputs(inputs)))\n\n    if size_dict is None:",
+      "canonicalize=False with output=None: implicit output sorted (einsum convention) instead of order of first appearance", T)
+    M("M_C12_x6", ["C12"], "cotengra/interface.py",
+      "    return optimize.get_path()\n",
+      "    return optimize.get_ssa_path()\n",
+      "array_contract_path(optimize=<ContractionTree>) returns the ssa path instead of the linear one", T)
+    M("M_C12_x7", ["C12"], "cotengra/interface.py",
+      "        with ar.backend_like(backend):\n            return self.fn(*args, **kwargs)\n",
+      "        with ar.backend_like(backend):\n            self.fn(*args, **kwargs)\n",
+      "WithBackend: missing return when a backend is requested", T)
+    M("M_C12_x8", ["C12"], "cotengra/interface.py",
+      "        optimize = preset_to_optimizer(optimize)\n        tree = find_tree(",
+      "        optimizer = preset_to_optimizer(optimize)\n        tree = find_tree(",
+      "_find_tree_preset: half-finished rename - a preset without a tree function is looked up again and again (RecursionError)", T)
+    M("M_C12_x9", ["C12"], "cotengra/interface.py",
+      "    elif nterms <= 2:\n",
+      "    elif nterms <= 3:\n",
+      "array_contract_tree pre-empts the optimizer for three operands too (off by one): a registered preset is neither consulted nor followed", T)
+    M("M_C12_x10", ["C12"], "cotengra/interface.py",
+      "        return self.fn(arrays, **self.kwargs, **kwargs)\n",
+      "        return self.fn(*arrays, **self.kwargs, **kwargs)\n",
+      "Variadic (expression of a sliced tree) unpacks the arrays again", T)
+    M("M_C12_x11", ["C12"], "cotengra/interface.py",
+      "        return fn(*args, **kwargs), 0.0\n",
+      "        return fn(*args, **kwargs), 1.0\n",
+      "strip_exponent on a one-operand call reports exponent 1 (wrong default: a factor 10)", T)
+    M("M_C12_x12", ["C12"], "cotengra/interface.py",
+      "            inputs, output, size_dict, edge_path=optimize\n",
+      "            inputs, output, size_dict, path=optimize\n",
+      "_find_tree_explicit hands an edge path to from_path as a linear path", T)
+    M("M_C12_x13", ["C12"], "cotengra/interface.py",
+      "                s = ar.shape(s)\n            size_dict.update(zip(inputs[i], s))\n",
+      "                s = ar.shape(s)\n                size_dict.update(zip(inputs[i], s))\n",
+      "einsum_expression with constants: indentation slip - sizes are collected from the constant operands only", T)
+    M("M_C12_y", ["C12"], "cotengra/interface.py",
+      "    register_opt_einsum=\"auto\",\n    compressed=False,\n):",
+      "    register_opt_einsum=False,\n    compressed=False,\n):",
+      "harmless for the front end: presets are no longer registered with opt_einsum as well", T, harmless=True)
+
+    # ---- reverts of the repairs of FINDINGS_widen-c.md F1-F4 (cf6fb6b, df9c948, f2a0970) ----
+    M("M_C12_r1", ["C12", "C13"], "cotengra/interface.py",
+      "    if lazy_variables:\n        fn = lz_output.get_function(lazy_variables, fold_constants=True)\n    else:\n"
+      "        # every input is constant, the contraction has already been performed\n\n        def fn():\n            return lz_output\n",
+      "    fn = lz_output.get_function(lazy_variables, fold_constants=True)\n",
+      "revert of cf6fb6b (F1): an expression whose operands are ALL constant cannot be built (AttributeError)", T)
+    M("M_C12_r2", ["C12"], "cotengra/interface.py",
+      "    if constants:\n        # handle constants specially with autoray\n",
+      "    if constants is not None:\n        # handle constants specially with autoray\n",
+      "revert of cf6fb6b (F2): an EMPTY constants set goes through the lazy tracing; the one-operand identity expression fails when called (KeyError)", T)
+    M("M_C12_r3", ["C12"], "cotengra/contract.py",
+      "    if tree.N == 1:\n        # a single tensor: there are no pairwise contractions, so any traces,\n"
+      "        # sums and the transposition to the output order are one einsum\n"
+      "        sliced = tree.sliced_inds\n        term = tuple(ix for ix in tree.inputs[0] if ix not in sliced)\n"
+      "        out = tuple(ix for ix in tree.output if ix not in sliced)\n"
+      "        eq = inputs_output_to_eq((term,), out, canonicalize=True)\n"
+      "        return ((node_from_single(0), None, None, False, eq, None),)\n\n",
+      "",
+      "revert of df9c948 (F3): a one-tensor tree has an empty programme again; tree.contract([x]) returns an unbound variable", T)
+    M("M_C12_r4", ["C12"], "cotengra/utils.py",
+      "        isinstance(optimize, (list, tuple))\n        and len(optimize) > 0\n        and isinstance(optimize[0], (int, str))\n",
+      "        isinstance(optimize, (list, tuple))\n        and isinstance(optimize[0], (int, str))\n",
+      "revert of f2a0970 (F4): the empty explicit path raises IndexError as optimize", T)
